@@ -147,11 +147,18 @@ let grp_name = function
 
 (* allocation group of a failing call stack (innermost frame first), if the failing allocation
    belongs to a fresh submission through ares_send_nolock *)
+let nprobe = ref 0
 let group_of_stack stack =
   let fr = Array.of_list (String.split_on_char '<' stack) in
   let idx name = let r = ref (-1) in Array.iteri (fun i f -> if !r < 0 && f = name then r := i) fr; !r in
   let callee i = if i > 0 then Some fr.(i - 1) else None in
   let i = idx "ares_send_nolock" in
+  (* a server probe (ares_probe_failed_server, started by ares_send_query once the request is
+     fully registered) is a submission of its own nested in the caller's: its return code is
+     dropped and its callback is the library's no-op, so neither shows in the log; RET/CB of the
+     window belong to the OUTER request, which must simply proceed (judged by the oracle).  Its
+     allocations come after the outer submission's last group and are not the outer request's *)
+  if Array.exists (fun f -> f = "ares_probe_failed_server") fr then (incr nprobe; None) else
   if i < 0 || Array.exists (fun f -> f = "~") fr then None
   else match callee i with
     | None -> Some GQuery
@@ -493,4 +500,5 @@ let () =
   Printf.printf "STAT scenarios %d\n" (Hashtbl.length scen_seen);
   Printf.printf "STAT oracle_rejections %d\n" !nfail;
   Printf.printf "STAT submission_model_comparisons %d\n" !nmodel;
-  Printf.printf "STAT submission_refusals_tolerated_by_callee %d\n" !ntolerated
+  Printf.printf "STAT submission_refusals_tolerated_by_callee %d\n" !ntolerated;
+  Printf.printf "STAT failures_inside_nested_server_probe_not_compared_with_submission_model %d\n" !nprobe
